@@ -324,6 +324,11 @@ func (g *gen) mkNamed(i int) *Decl {
 
 func (g *gen) mkStruct(i int) *Decl {
 	d := &Decl{Kind: "struct", Name: fmt.Sprintf("S%d", i)}
+	if !g.opt.SQL && g.chance(0.12) {
+		// an unexported struct type (mixins, private union members)
+		d.Name = fmt.Sprintf("ls%d", i)
+		g.c.AddFeat("unexported-struct-type")
+	}
 	if g.opt.Risky && g.chance(0.08) {
 		d.Name = string(rune('A' + i))
 		g.c.AddFeat("one-letter-struct")
@@ -395,6 +400,17 @@ func (g *gen) mkUnion(i int) *Decl {
 		if n.Under.K == "basic" {
 			pool = append(pool, n.Name)
 		}
+	}
+	// named slices / maps as members (their nil value is a member value too)
+	if g.chance(0.3) {
+		name := g.uniq("Lm")
+		under := Slice(Basic("string"))
+		if g.chance(0.4) {
+			under = Map(Basic("string"), Basic("int"))
+		}
+		g.lists = append(g.lists, &Decl{Kind: "named", Name: name, Under: under})
+		pool = append(pool, name, name)
+		g.c.AddFeat("union-member-named-container")
 	}
 	if len(pool) == 0 {
 		return nil
